@@ -47,6 +47,10 @@ func genC04(e *emitter, tier string, seed uint64) {
 	for sh := 0; sh < shapes; sh++ {
 		k := genKey(r)
 		nIn, nOut := 1+r.n(4), r.n(5)
+		if sh >= 5 && sh <= 7 {
+			nIn, nOut = 3, 3 // shapes 5..7 of every run: three inputs, three outputs, signed position 0, 1, 2 (SINGLE has a
+			// matching output with other outputs before and after it)
+		}
 		tx := &bt.Tx{Version: 1 + uint32(r.n(2)), LockTime: uint32(r.n(1000))}
 		locks := make([][]byte, nIn)
 		hasReturn := false
@@ -74,6 +78,9 @@ func genC04(e *emitter, tier string, seed uint64) {
 			tx.Outputs = append(tx.Outputs, &bt.Output{Satoshis: uint64(r.n(5000)), LockingScript: scr(p2pkhOf(genKey(r)))})
 		}
 		pos := r.n(nIn)
+		if sh >= 5 && sh <= 7 {
+			pos = sh - 5
+		}
 		if sh < 5 {
 			// the first shapes of every run: the signed input spends an enriched inscription whose OP_RETURN tail is a
 			// push of sh bytes (serialised tails of 1..5 bytes)
@@ -88,7 +95,7 @@ func genC04(e *emitter, tier string, seed uint64) {
 			hasReturn = true
 		}
 		for fi, ft := range flagTypes {
-			if quick && (fi+sh)%3 != 0 {
+			if quick && (fi+sh)%3 != 0 && !(sh >= 5 && sh <= 7 && ft.ht&0x1f == 3) {
 				continue
 			}
 			st := cloneTx(tx)
